@@ -323,6 +323,16 @@ class C08(Check):
 
     def _check_offsets(self, out, pydsdl, res, sec, real, base_node, base_real, where, depth, messages=True) -> None:
         model = sec.offsets(base_node)
+        if depth == 0:
+            # history: a client that obtained the attribute lists earlier and modified its copies (sorting, filtering in place)
+            # before asking for offsets - "every field exactly once, in order" holds regardless
+            for obj in (real, getattr(real, "inner_type", real)):
+                for acc in ("fields", "fields_except_padding", "attributes", "constants"):
+                    lst = getattr(obj, acc, None)
+                    if isinstance(lst, list) and lst:
+                        lst.reverse()
+                        lst.pop()
+                        out.stats["client_list_mutations"] += 1
         got = list(real.iterate_fields_with_offsets(base_real))
         if [f.name for f, _o in got] != [(n or "") for n, _t, _o in model]:
             out.fail("C08.base", "%s: fields yielded %s, model %s" % (where, [f.name for f, _o in got], [n for n, _t, _o in model]), "order")
